@@ -204,7 +204,13 @@ const STALE_PREFIX: usize = 24;
 /// bytes right behind the valid window are then stale digits, not zeros. A scanner that loads
 /// beyond the buffered data (C14) returns a value that depends on them.
 pub fn run_case_in<I: ScanInt>(s: &[u8], offset: usize, scanner: Scanner, buffered: usize, rest_bytewise: bool, stale: bool) -> Vec<(String, String)> {
-    let describe = || (format!("digits/{}/{}", scanner.name(), type_class::<I>()), format!("{}::<{}>({:?}, offset {offset}) with {buffered} bytes buffered{}", scanner.name(), I::NAME, show(s), if stale { " (stale digits behind the window)" } else { "" }), replay_value::<I>(s, offset, scanner, buffered, rest_bytewise, stale));
+    run_case_full::<I>(s, offset, scanner, buffered, rest_bytewise, stale, false)
+}
+
+/// `complete`: the whole text is buffered and the reader has seen the end of the input before the
+/// scanner is called.
+pub fn run_case_full<I: ScanInt>(s: &[u8], offset: usize, scanner: Scanner, buffered: usize, rest_bytewise: bool, stale: bool, complete: bool) -> Vec<(String, String)> {
+    let describe = || (format!("digits/{}/{}", scanner.name(), type_class::<I>()), format!("{}::<{}>({:?}, offset {offset}) with {buffered} bytes buffered{}{}", scanner.name(), I::NAME, show(s), if stale { " (stale digits behind the window)" } else { "" }, if complete { " (end of input already seen)" } else { "" }), { let mut v = replay_value::<I>(s, offset, scanner, buffered, rest_bytewise, stale); v["complete"] = json!(complete); v });
     let _guard = mc_core::abortguard::enter(&describe);
     let mut problems = Vec::new();
     let b = buffered.min(s.len());
@@ -240,13 +246,16 @@ pub fn run_case_in<I: ScanInt>(s: &[u8], offset: usize, scanner: Scanner, buffer
         } else if b > 0 {
             reader.request(b);
         }
+        if complete {
+            reader.request(s.len() + 1);
+        }
         let pre = reader.buf_len();
         let r = scanner.call::<I>(&mut reader, offset);
         (r, pre, reader.position(), reader.buf().to_vec())
     });
     let got = match res {
         Ok((r, pre, position, buf)) => {
-            if pre != b {
+            if pre != b && !complete {
                 problems.push(("harness".into(), format!("harness could not buffer exactly {b} bytes (got {pre})")));
             }
             if position != base {
@@ -286,6 +295,21 @@ fn check_case<I: ScanInt>(s: &[u8], offset: usize, buffered: usize, rest_bytewis
                 replay_value::<I>(s, offset, scanner, buffered, rest_bytewise, false),
                 (s.len() * 64 + buffered) as u64,
             );
+        }
+        // the same text on a reader that has already seen the end of the input
+        if buffered >= s.len() && !rest_bytewise {
+            let done = run_case_full::<I>(s, offset, scanner, buffered, false, false, true);
+            report.evaluations += 1;
+            report.transitions += 1;
+            report.count("cases_on_a_reader_that_has_seen_the_end", 1);
+            for (kind, what) in &done {
+                report.violation(
+                    format!("digits/{}/{}/at-end-{}", scanner.name(), type_class::<I>(), kind),
+                    format!("{}::<{}>({:?}, offset {offset}) on a reader that has already seen the end of the input: {what}", scanner.name(), I::NAME, show(s)),
+                    { let mut v = replay_value::<I>(s, offset, scanner, buffered, false, false); v["complete"] = json!(true); v },
+                    (s.len() * 64 + buffered) as u64,
+                );
+            }
         }
         // the same case with stale digits right behind the buffered window (1..=8 bytes buffered:
         // the first refill of the text is a single chunk of 8)
@@ -787,9 +811,9 @@ pub fn run(tier: Tier, report: &mut Report) {
     report.sample(json!({"family": "S", "call": "signed_ascii_digits::<u8>(\"-x\", 0), nothing buffered", "expected": "(Some(0), 0): a lone '-' is not consumed"}));
 }
 
-fn dispatch_case(ty: &str, s: &[u8], offset: usize, scanner: Scanner, buffered: usize, bytewise: bool, stale: bool) -> Vec<(String, String)> {
+fn dispatch_case(ty: &str, s: &[u8], offset: usize, scanner: Scanner, buffered: usize, bytewise: bool, stale: bool, complete: bool) -> Vec<(String, String)> {
     macro_rules! go {
-        ($($t:ty),*) => {$( if ty == stringify!($t) { return run_case_in::<$t>(s, offset, scanner, buffered, bytewise, stale); } )*};
+        ($($t:ty),*) => {$( if ty == stringify!($t) { return run_case_full::<$t>(s, offset, scanner, buffered, bytewise, stale, complete); } )*};
     }
     go!(i8, i16, i32, i64, i128, isize, u8, u16, u32, u64, u128, usize);
     panic!("unknown type {ty}");
@@ -819,8 +843,9 @@ pub fn replay(v: &Value) -> (bool, String) {
     let buffered = v["buffered"].as_u64().unwrap() as usize;
     let bytewise = v["rest_bytewise"].as_bool().unwrap_or(false);
     let stale = v["stale"].as_bool().unwrap_or(false);
-    let p1 = dispatch_case(ty, &s, offset, scanner, buffered, bytewise, stale);
-    let p2 = dispatch_case(ty, &s, offset, scanner, buffered, bytewise, stale);
+    let complete = v["complete"].as_bool().unwrap_or(false);
+    let p1 = dispatch_case(ty, &s, offset, scanner, buffered, bytewise, stale, complete);
+    let p2 = dispatch_case(ty, &s, offset, scanner, buffered, bytewise, stale, complete);
     let mut text = format!("{}::<{ty}>({:?}, offset {offset}), {buffered} bytes buffered, rest {}\n  reference: {:?}\n", scanner.name(), show(&s), if bytewise { "byte-wise" } else { "at once" }, ref_scan(&s, offset, scanner.signed()));
     if p1 != p2 {
         text.push_str("  NONDETERMINISTIC REPLAY\n");
